@@ -52,6 +52,9 @@ MUTANTS = {
     'seek_no_eof_exit': (P + 'kd_buf_parser.py', "        if not next_byte:\n            raise EOFError(f'Reached the end of the stream while looking for {data!r}')\n", "", ['C06']),
     'traces_materialised_sorted': (P + 'pykdebugparser.py', "        trace_generator = traces_parser.feed_generator(self.kevents(kdebug))\n", "        trace_generator = iter(traces_parser.feed_generator(sorted(self.kevents(kdebug), key=lambda e: e.timestamp)))\n", ['C06']),
     'count_off_by_one': (P + '__main__.py', "        if i == count:\n            break\n        print(obj)", "        print(obj)\n        if i == count:\n            break", ['C06']),
+    'cs_end_timestamp': (P + 'callstacks_parser.py', "yield Callstack(trace.ktraces[0].timestamp, trace.ktraces[0].tid, frames)", "yield Callstack(trace.ktraces[-1].timestamp, trace.ktraces[0].tid, frames)", ['C15']),
+    'cs_insert_append': (P + 'callstacks_parser.py', "        index_ = bisect(self.dyld_addresses, address)\n", "        index_ = len(self.dyld_addresses)\n", ['C15']),
+    'cs_launch_ignored': (P + 'callstacks_parser.py', "            elif isinstance(trace, DyldLaunchExecutable):\n                for image in trace.uuid_map_a:\n                    self.insert_image(image.load_addr, image.uuid)", "", ['C15']),
 }
 
 
